@@ -16,6 +16,12 @@
       for a producer (the receive thread) that takes no lock at all; every queue operation under a
       lock is bounded; and each request+ACK exchange lies inside ONE `with` block from the diff to
       the update of the acknowledged vector.
+      WHAT COUNTS AS A LOCK is resolved, not assumed from the name: the translator follows the imports of
+      each module and accepts an attribute as one of the four locks only if its constructor IS
+      `threading.Lock` / `threading.RLock` there (`from contextlib import nullcontext as Lock` makes every
+      row a missing site; the resolved constructors are emitted as comments at the end of Gen/Locks.lean
+      and as the `lockCtors` fact); a lock attribute the table does not know (a second channels lock …)
+      is a missing site naming it, never a silently ignored `with`.
   (b) `no_deadlock` — for ANY number of threads and any set of locks: if every waiting thread holds
       only locks of strictly smaller rank than the one it waits for, no set of threads is
       deadlocked.  `table_no_deadlock` instantiates it: threads whose lock waits happen at
@@ -80,7 +86,10 @@
   channels lock and may lag by one ACK round trip; the property's `ch_is_enabled` does not).
   The step from (a) to "a critical section is an atomic step" is this argument, not a theorem; the
   harness closes the gap empirically by replaying real lock-level schedules (real threads under
-  the deterministic scheduler) through the model driver.
+  the deterministic scheduler) through the model driver — with the lock objects the library itself
+  created (recording wrappers delegate to them; the harness supplies no exclusion of its own), also
+  against a device with processing latency, so that two requests can be on the wire together unless
+  the library serialises whole exchanges.
 -/
 import NxsModel.Locks
 import NxsModel.LockSteps
